@@ -3183,7 +3183,19 @@ func (r *Resolver) verifyDNSSEC(ctx context.Context, signer, signed string, resp
 		return false, fmt.Errorf("DS RR set empty")
 	}
 
-	unsupportedOnly, err := dnssec.VerifyDSWithWork(keys, parentdsRR, r.dnssecWork(ctx))
+	// The keys that may vouch for resp. When resp is the signer's own
+	// DNSKEY RRset nothing has authenticated that RRset yet, so only the
+	// keys the parent's DS anchors may (RFC 4035 §5.2); a key that merely
+	// sits in the RRset proves nothing about it. For any other response
+	// msg is the DNSKEY RRset the sub-query above already validated that
+	// way, and every key in it may sign.
+	verifyKeys := keys
+	var unsupportedOnly bool
+	if msg == resp {
+		verifyKeys, unsupportedOnly, err = dnssec.VerifyDSAnchoredWithWork(keys, parentdsRR, r.dnssecWork(ctx))
+	} else {
+		unsupportedOnly, err = dnssec.VerifyDSWithWork(keys, parentdsRR, r.dnssecWork(ctx))
+	}
 	if err != nil {
 		zlog.Debug("DNSSEC DS verify failed", "signer", signer, "signed", signed, "error", err.Error(), "unsupported only", unsupportedOnly)
 		if unsupportedOnly {
@@ -3200,7 +3212,7 @@ func (r *Resolver) verifyDNSSEC(ctx context.Context, signer, signed string, resp
 		return false, nil
 	}
 
-	if ok, err = dnssec.VerifyRRSIGWithWork(signer, keys, resp, r.dnssecWork(ctx)); err != nil {
+	if ok, err = dnssec.VerifyRRSIGWithWork(signer, verifyKeys, resp, r.dnssecWork(ctx)); err != nil {
 		return
 	}
 
